@@ -16,7 +16,7 @@ def manifestOfJson (j : Json) : Except String Manifest := do
   let deps ← match jopt j "deps" with | some d => idsOfJson d | none => pure []
   let mutFrom ← match jopt j "mutFrom" with | some d => optId d | none => pure none
   return { id := id, deps := deps, depsRaw := (jstr j "depsRaw").toOption.getD "", keep := jboolD j "keep" false,
-           detach := jboolD j "detach" false, rev := (jint j "rev").toOption.getD 0, mutFrom := mutFrom,
+           detach := jboolD j "detach" false, rev := (jint j "rev").toOption.getD 0, mutFrom := mutFrom, mutExt := jboolD j "mutExt" false,
            owner := (jstr j "owner").toOption.getD "" }
 
 def idOfKey (k : String) : Id :=
@@ -48,7 +48,8 @@ def runOfJson (j : Json) : Except String Run := do
     noPrune := jboolD o "noPrune" false, policy := ((jint o "policy").toOption.getD 0).toNat % 3,
     dry := (match (jint o "dry").toOption.getD 0 with | 1 => .client | 2 => .server | _ => .none),
     skipInvalid := jboolD o "skipInvalid" false, ssa := jboolD o "ssa" false, timeout := jboolD o "timeout" false,
-    emitStatus := jboolD o "emitStatus" false, foreground := jboolD o "foreground" false }
+    emitStatus := jboolD o "emitStatus" false, foreground := jboolD o "foreground" false,
+    statusAll := jboolD o "statusAll" false }
   let objs ← match jopt j "objs" with
     | some a => if a.isNull then pure [] else (← asList a).mapM manifestOfJson
     | none => pure []
